@@ -23,6 +23,9 @@ def DataFrame_head (truth : Term → Bool) (n_is_None : Bool) (dataiter_DEFAULT_
 /-- the decorators of dataiter/data_frame.py: DataFrame.head, outermost first -/
 def DataFrame_head_decorators : List String := []
 
+/-- the signature of dataiter/data_frame.py: DataFrame.head: parameters in order, with the source text of their defaults -/
+def DataFrame_head_signature : List String := ["self", "n=None"]
+
 /-- dataiter/data_frame.py: DataFrame.tail (sha256 of the function source: 6cbedf94d0ca7a46) -/
 def DataFrame_tail (truth : Term → Bool) (n_is_None : Bool) (dataiter_DEFAULT_PEEK_ROWS : Int) (self_nrow : Int) (n : Int) : Out :=
   if n_is_None then
@@ -36,6 +39,9 @@ def DataFrame_tail (truth : Term → Bool) (n_is_None : Bool) (dataiter_DEFAULT_
 /-- the decorators of dataiter/data_frame.py: DataFrame.tail, outermost first -/
 def DataFrame_tail_decorators : List String := []
 
+/-- the signature of dataiter/data_frame.py: DataFrame.tail: parameters in order, with the source text of their defaults -/
+def DataFrame_tail_signature : List String := ["self", "n=None"]
+
 /-- dataiter/data_frame.py: DataFrame._parse_rows_from_boolean (sha256 of the function source: 28fa19cce9bf339b) -/
 def DataFrame_parse_rows_from_boolean (truth : Term → Bool) (len_rows : Int) (self_nrow : Int) : Out :=
   let rows' : Term := (Term.app "Vector.fast" [(Term.sym "rows"), (Term.sym "bool")]);
@@ -46,6 +52,9 @@ def DataFrame_parse_rows_from_boolean (truth : Term → Bool) (len_rows : Int) (
 
 /-- the decorators of dataiter/data_frame.py: DataFrame._parse_rows_from_boolean, outermost first -/
 def DataFrame_parse_rows_from_boolean_decorators : List String := []
+
+/-- the signature of dataiter/data_frame.py: DataFrame._parse_rows_from_boolean: parameters in order, with the source text of their defaults -/
+def DataFrame_parse_rows_from_boolean_signature : List String := ["self", "rows"]
 
 /-- dataiter/data_frame.py: DataFrame.filter (sha256 of the function source: c45f431825ecd074) -/
 def DataFrame_filter (truth : Term → Bool) (rows_is_None : Bool) : Out :=
@@ -75,6 +84,9 @@ def DataFrame_filter (truth : Term → Bool) (rows_is_None : Bool) : Out :=
 /-- the decorators of dataiter/data_frame.py: DataFrame.filter, outermost first -/
 def DataFrame_filter_decorators : List String := ["deco.new_from_generator"]
 
+/-- the signature of dataiter/data_frame.py: DataFrame.filter: parameters in order, with the source text of their defaults -/
+def DataFrame_filter_signature : List String := ["self", "rows=None", "**colname_value_pairs"]
+
 /-- dataiter/data_frame.py: DataFrame.filter_out (sha256 of the function source: e11629f5d098ab96) -/
 def DataFrame_filter_out (truth : Term → Bool) (rows_is_None : Bool) : Out :=
   if (!rows_is_None) then
@@ -103,6 +115,9 @@ def DataFrame_filter_out (truth : Term → Bool) (rows_is_None : Bool) : Out :=
 /-- the decorators of dataiter/data_frame.py: DataFrame.filter_out, outermost first -/
 def DataFrame_filter_out_decorators : List String := ["deco.new_from_generator"]
 
+/-- the signature of dataiter/data_frame.py: DataFrame.filter_out: parameters in order, with the source text of their defaults -/
+def DataFrame_filter_out_signature : List String := ["self", "rows=None", "**colname_value_pairs"]
+
 /-- dataiter/data_frame.py: DataFrame.slice (sha256 of the function source: 511154c3813eb735) -/
 def DataFrame_slice (truth : Term → Bool) (rows_is_None : Bool) (cols_is_None : Bool) : Out :=
   let rows' : Term := (if rows_is_None then (Term.app "np.arange" [(Term.app ".nrow" [(Term.sym "self")])]) else (Term.sym "rows"));
@@ -114,6 +129,9 @@ def DataFrame_slice (truth : Term → Bool) (rows_is_None : Bool) (cols_is_None 
 
 /-- the decorators of dataiter/data_frame.py: DataFrame.slice, outermost first -/
 def DataFrame_slice_decorators : List String := ["deco.new_from_generator"]
+
+/-- the signature of dataiter/data_frame.py: DataFrame.slice: parameters in order, with the source text of their defaults -/
+def DataFrame_slice_signature : List String := ["self", "rows=None", "cols=None"]
 
 /-- dataiter/data_frame.py: DataFrame.slice_off (sha256 of the function source: f6a15670316a4411) -/
 def DataFrame_slice_off (truth : Term → Bool) (rows_is_None : Bool) (cols_is_None : Bool) : Out :=
@@ -127,6 +145,9 @@ def DataFrame_slice_off (truth : Term → Bool) (rows_is_None : Bool) (cols_is_N
 /-- the decorators of dataiter/data_frame.py: DataFrame.slice_off, outermost first -/
 def DataFrame_slice_off_decorators : List String := ["deco.new_from_generator"]
 
+/-- the signature of dataiter/data_frame.py: DataFrame.slice_off: parameters in order, with the source text of their defaults -/
+def DataFrame_slice_off_signature : List String := ["self", "rows=None", "cols=None"]
+
 /-- dataiter/data_frame.py: DataFrame.drop_na (sha256 of the function source: 16b3ee3bca8991c0) -/
 def DataFrame_drop_na (truth : Term → Bool) : Out :=
   let drop' : Term := (Term.app ".repeat" [(Term.app "Vector.fast" [(Term.app "list" [(Term.sym "False")]), (Term.sym "bool")]), (Term.app ".nrow" [(Term.sym "self")])]);
@@ -136,6 +157,9 @@ def DataFrame_drop_na (truth : Term → Bool) : Out :=
 
 /-- the decorators of dataiter/data_frame.py: DataFrame.drop_na, outermost first -/
 def DataFrame_drop_na_decorators : List String := []
+
+/-- the signature of dataiter/data_frame.py: DataFrame.drop_na: parameters in order, with the source text of their defaults -/
+def DataFrame_drop_na_signature : List String := ["self", "*colnames"]
 
 /-- dataiter/data_frame.py: DataFrame.unique (sha256 of the function source: 6a3c24bcd387b834) -/
 def DataFrame_unique (truth : Term → Bool) : Out :=
@@ -151,5 +175,8 @@ def DataFrame_unique (truth : Term → Bool) : Out :=
 
 /-- the decorators of dataiter/data_frame.py: DataFrame.unique, outermost first -/
 def DataFrame_unique_decorators : List String := ["deco.new_from_generator"]
+
+/-- the signature of dataiter/data_frame.py: DataFrame.unique: parameters in order, with the source text of their defaults -/
+def DataFrame_unique_signature : List String := ["self", "*colnames"]
 
 end DI.Gen
